@@ -53,6 +53,8 @@ let show_classes l = match List.sort compare (List.map class_name l) with [] -> 
 let handle w =
   match w with
   | ["pn53x"; d; c; payload] -> show_out (pn53x_status_outcome (dir_of d) (cmd_of c) (bytes_of_hex payload))
+  | ["readreg"; d; ws; n; payload] -> show_out (pn53x_readreg_outcome (dir_of d) (ws = "1") (zi n) (bytes_of_hex payload))
+  | ["rcs380p"; d; payload] -> show_out (rcs380_payload_outcome (dir_of d) (bytes_of_hex payload))
   | ["errframe"; d] -> show_out (pn53x_errframe_outcome (dir_of d))
   | ["ioerr"; d; n] -> show_out (ORaise (pn53x_ioerror_map (dir_of d) (zi n)))
   | ["rcs380w"; d; n] -> show_out (rcs380_status_outcome (dir_of d) (zi n))
